@@ -1,0 +1,29 @@
+//go:build verif
+
+/*
+   Copyright The containerd Authors.
+
+   Licensed under the Apache License, Version 2.0 (the "License");
+   you may not use this file except in compliance with the License.
+   You may obtain a copy of the License at
+
+       http://www.apache.org/licenses/LICENSE-2.0
+
+   Unless required by applicable law or agreed to in writing, software
+   distributed under the License is distributed on an "AS IS" BASIS,
+   WITHOUT WARRANTIES OR CONDITIONS OF ANY KIND, either express or implied.
+   See the License for the specific language governing permissions and
+   limitations under the License.
+*/
+
+package adaptation
+
+// vhookPluginNames returns the names of the active plugins in invocation
+// order, for verification hooks. The caller must hold the adaptation lock.
+func (r *Adaptation) vhookPluginNames() []string {
+	names := make([]string, 0, len(r.plugins))
+	for _, p := range r.plugins {
+		names = append(names, p.name())
+	}
+	return names
+}
